@@ -165,3 +165,28 @@ Example C04_single_nonvacuous :
   run (leaf_stmts GO false ([SF 2], lf) 5) (mkst [181; 234; 3] [([SF 2], mkcell (CS 16) 0)]) =
     Some (mkst [181; 234; 3] [([SF 2], mkcell (CS 16) 65365)]).
 Proof. vm_compute. repeat split; try reflexivity; try (intro; discriminate). Qed.
+
+(* ---- optimization mode = standard mode: the emitted -O statements (C byte-pointer, C
+   value-based, Go) and the C runtime driven by the standard-mode descriptors (C03) produce the
+   same bytes, and all four decoders turn those bytes back into the stored value ---- *)
+From BP Require OpModeStd CMem CRt CTop.
+
+Theorem C04_eq_standard_enc : forall t v,
+  OpMode.opmode_ok (norm t) = true -> CTop.c_schema t -> has_ty (norm t) v = true ->
+  exists bs,
+    OpMode.run_encode (OpMode.c_le_body true t) t v = Some bs /\
+    OpMode.run_encode (OpMode.c_be_body true t) t v = Some bs /\
+    OpMode.run_encode (OpMode.go_body true t) t v = Some bs /\
+    CRt.c_encode_ty CMem.LE CMem.LE t (CRt.store CMem.LE (norm t) v) = CMem.COk bs.
+Proof. exact OpModeStd.opmode_eq_standard_enc. Qed.
+Print Assumptions C04_eq_standard_enc.
+
+Theorem C04_eq_standard_dec : forall t v,
+  OpMode.opmode_ok (norm t) = true -> CTop.c_schema t -> has_ty (norm t) v = true ->
+  forall bs, CRt.c_encode_ty CMem.LE CMem.LE t (CRt.store CMem.LE (norm t) v) = CMem.COk bs ->
+    OpMode.run_decode (OpMode.c_le_body false t) t bs = Some (OpMode.store (norm t) v) /\
+    OpMode.run_decode (OpMode.c_be_body false t) t bs = Some (OpMode.store (norm t) v) /\
+    OpMode.run_decode (OpMode.go_body false t) t bs = Some (OpMode.store (norm t) v) /\
+    CRt.c_decode_ty CMem.LE CMem.LE t bs = CMem.COk (CRt.store CMem.LE (norm t) v).
+Proof. exact OpModeStd.opmode_eq_standard_dec. Qed.
+Print Assumptions C04_eq_standard_dec.
